@@ -449,6 +449,12 @@ class State:
             self.nalloc += 1 << 20
             self.fact(z3.And(r >= z3.simplify(lo), r < z3.simplify(lo + (1 << 20))))
             self.fact(cls_of(r) == self.reg.cid(cls_name))
+            # the same two facts for every index, triggered by the reference term itself (f is a new function, so this
+            # constrains nothing else): a caller that meets f(t) for an index term t of its own — a skolem index of a
+            # frame condition — still knows the object lies in this iteration's block and has this class
+            ks = [z3.Int(f'k!g{n}') for n in range(len(bs))]
+            self.fact(z3.ForAll(ks, z3.And(f(*ks) >= z3.simplify(lo), f(*ks) < z3.simplify(lo + (1 << 20)),
+                                           cls_of(f(*ks)) == self.reg.cid(cls_name)), patterns=[f(*ks)]))
             if len(bs) == 1:
                 # two elements get two objects (each evaluation of the body allocates anew)
                 a, b = z3.Int('k!a'), z3.Int('k!b')
@@ -3228,6 +3234,29 @@ class Interp:
             changed = self.heap_changed(base_heap, sub.st.heap, sub.st, base_written, base_nalloc)
             paths.append({'dec': decisions, 'facts': facts, 'out': out, 'sub': sub, 'fr': nfr,
                           'changed': changed, 'obl': sub.st.obligations[ob0:]})
+        # What the body stored into the objects it allocated for its element (one object per element, injective in
+        # the index: State.new_ref) is the state of those objects afterwards.  The body's heap is dropped below (it has
+        # no effect on what existed before), so say it about the heap that is kept: at the references of this
+        # iteration's own block — which nothing has read or constrained before, they did not exist — the kept arrays
+        # hold what the body left there.  Only for an outermost iteration (a single index variable).
+        if not self.binders:
+            for sub, nfr, out in results:
+                if out[0] != 'ok':
+                    continue
+                decs = [d for d in sub.st.pc[n0:] if d.get_id() not in sub.st.fact_ids]
+                rng = z3.And(0 <= K, K < length, *decs)
+                for name, arr in sub.st.heap.items():
+                    b = base_heap.get(name)
+                    if b is None:
+                        b = z3.Const(name + '@0', arr.sort())
+                    if b.eq(arr):
+                        continue
+                    seen = set()
+                    for r in sub.st.written.get(name, [])[base_written.get(name, 0):]:
+                        if not (self.is_elem_ref(r) and r.num_args() == 1 and r.arg(0).eq(K)) or r.get_id() in seen:
+                            continue
+                        seen.add(r.get_id())
+                        st.fact(z3.ForAll([K], z3.Implies(rng, b[r] == arr[r]), patterns=[r]))
         # symbols and references created for the generic element must never be handed out again — to a later
         # iteration over another sequence, or to the code that follows (two comprehensions sharing `hv!3(k)` or
         # one allocation block would have their elements identified)
